@@ -477,7 +477,7 @@ def main():
         n_self, missed = oracle_selftest(base)
         if missed:
             chk.machinery("oracle self-test: corruption not detected / setup failed: %s" % missed)
-        cap_s = int(os.environ.get("VERIF_WALL_CAP", 840 if chk.thorough else 50))
+        cap_s = int(os.environ.get("VERIF_WALL_CAP", 840 if chk.thorough else 40))
         for r in vlib.pmap_unordered(job, items, chunksize=8):
             results.append(r)
             if time.time() - t0 > cap_s:
@@ -540,7 +540,7 @@ def main():
                               "internal error: %s (reference linker: %s)"
                               % (arch, kind, relr, cell_name(words), line[:200], ref_ok), rep)
             else:
-                rk = "%s %s %s: %s" % (arch, kind, tkinds, re.sub(r"0x[0-9a-f]+|#\d+|\d+", "N",
+                rk = "%s %s %s: %s" % (arch, kind, tkinds, re.sub(r"0x[0-9a-f]+|#\d+|\b\d+\b", "N",
                                                                    line)[:100])
                 rejected.setdefault(rk, []).append(cell_name(words))
         else:
